@@ -40,6 +40,9 @@ var handCorpus = []string{
 	`<%= if (gid) { %><%= gid ~= gid %>|<%= "zzz" ~= gid %>|<%= gid %>|<%= {k: gid}["k"] %>|<%= [gid][0] %><% } else { %>no gid<% } %>`,
 	// a helper that writes into its (auto-supplied or literal) options map
 	`<%= opt() %>|<%= opt({a: 1}) %>|<%= for (v) in [1, 2, 3] { %><%= opt() %><% } %>|<% let f = fn() { return opt() } %><%= f() %><%= f() %>`,
+	// a template that includes its own text as a partial (one Template value executing re-entrantly when the cache is on)
+	`<%= if (n) { %><%= n %>[<%= if (n == "a") { %><%= partial("self", {n: "b"}) %><% } %>]<%= n %><% } else { %>(<%= partial("self", {n: "a"}) %>)<% } %>`,
+	`<% let m = "m" %><%= if (n) { %><%= n %><%= m %><% } else { %><%= partial("self", {n: "1"}) %>/<%= partial("self", {n: "2"}) %>/<%= m %><% } %>`,
 	`<%= 1 / 0 %>`,
 	`<%= 1 +`,
 	`<% if (true) { %>open`,
